@@ -190,7 +190,7 @@ class Rig(object):
         self.table[bytes(cmd)] = a
         self.R[a] = R
         self.cur = dict(id=a, cmd=bytes(cmd))
-        ev = dict(e="Start", op="apdu", L=L, R=R, nx="?")
+        ev = dict(e="Start", op="apdu", L=L, R=R, sa=(api == "send_apdu"), nx="?")
         self.ev.append(ev)
         self.resume = ev
         try:
@@ -213,7 +213,7 @@ class Rig(object):
         self.nop += 1
         self.script["ops"].append(["ping", 0, 0, ""])
         self.cur = None
-        ev = dict(e="Start", op="ping", L=0, R=0, nx="?")
+        ev = dict(e="Start", op="ping", L=0, R=0, sa=False, nx="?")
         self.ev.append(ev)
         self.resume = ev
         try:
@@ -376,7 +376,7 @@ def script_from_error_trace(et, real_cfg=("A", 2, 11, 256, 256, 7)):
         rm_model = int(mm.group(1)) if mm else 2
         w = re.search(r"nwtx = (\d+)", st)
         w = int(w.group(1)) if w else nwtx
-        m = re.match(r'StartOp\("(\w+)",\s*(\d+),\s*(\d+)\)', hdr)
+        m = re.match(r'StartOp\("(\w+)",\s*(\d+),\s*(\d+)', hdr)
         if m:
             if m.group(1) == "ping":
                 ops.append(["ping", 0, 0, ""])
@@ -454,6 +454,7 @@ CONSTANTS
   CFates = {"lose", "corrupt"}
   WithPing = TRUE
   Variant = "any"
+  Apis = {}
   Judge = %s
 CONSTRAINT Done
 CHECK_DEADLOCK FALSE
@@ -483,6 +484,7 @@ WITNESSES = ["W_Chain3", "W_CmdChain", "W_Retx", "W_Wtx", "W_Err", "W_ErrRx", "W
 SIZES = {   # NOps, CLens, RLens, Cfgs, MaxFaults, MaxWtx
     "quick": (3, "{1, 5}", "{2, 5}", "CfgsQuick", 3, 1),
     "thorough": (3, "{1, 2, 3, 5}", "{2, 4, 5}", "CfgsQuick", 3, 1),
+    "nowtx": (3, "{1, 5}", "{2, 5}", "CfgsQuick", 3, 0),     # counterexamples that do not depend on the WTX variant
     "deep": (2, "{1, 2, 3, 5}", "{2, 4, 5}", "CfgsThorough", 4, 2),
 }
 
@@ -501,8 +503,9 @@ CONSTANTS
   CFates = {"lose"}
   WithPing = TRUE
   Variant = "%s"
+  Apis = %s
 CHECK_DEADLOCK FALSE
-""" % (nops, cl, rl, "Cfgs01" if nretry01 else cfgs, mf, mw, variant)
+""" % (nops, cl, rl, "Cfgs01" if nretry01 else cfgs, mf, mw, variant, "{FALSE, TRUE}" if size == "deep" else "{FALSE}")
     body += "".join("INVARIANT %s\n" % i for i in invs)
     d = os.path.join(tlc.OUT, PID)
     os.makedirs(d, exist_ok=True)
@@ -526,7 +529,7 @@ def run(tier, seed):
         jobs["fixed_deep"] = ("fixed", CLEAN_INVS, False, 6, "deep")
         jobs["asis_deep"] = ("asis", ASIS_INVS, False, 6, "deep")
     for inv in EXPECTED_ASIS:
-        jobs["x_" + inv] = ("asis", [inv], True, 1, "quick")
+        jobs["x_" + inv] = ("asis", [inv], True, 1, "nowtx" if inv.endswith("Dirty") else "quick")
     main_jobs = [n for n in jobs if not n.startswith("x_")]
 
     def mc(name):
@@ -572,6 +575,8 @@ def run(tier, seed):
             ck.note("as-is model: TLC found no counterexample for %s" % inv)
             continue
         sc = script_from_error_trace(r.error_trace)
+        if sc is not None and not sc["ops"]:
+            raise tlc.TLCError("counterexample for %s could not be converted (no operations parsed)" % inv)
         if sc is None:
             raise tlc.TLCError("cannot realise counterexample for %s" % inv)
         rig = run_script(sc, "cex-" + inv)
